@@ -9,6 +9,7 @@ Search: whole-run relations on the implementation (byte comparison of output dir
 import copy
 import json
 import os
+import re
 import shutil
 
 import vlib
@@ -328,6 +329,38 @@ def relations(ctx, quick):
         for kv, res in zip(topts, ex.map(r1b, topts)):
             ctx.count(1, ("r1b", str(kv)))
             ctx.hist("rel:instantiation==each-method")
+            if res:
+                fails.append(res)
+    # --- R1c options consumed by a CLASS node itself (its C name prefix, its file names): written in the class's own options ==
+    #         written on a block that holds only that class
+    CLIB = {"library": "caselib", "cxx_header": "caselib.hpp", "options": {"wrap_python": False, "wrap_lua": False},
+            "declarations": [{"decl": "class Class1", "declarations": [{"decl": "Class1()"}, {"decl": "void Member1()"}, {"decl": "int Member2(int arg)"}]},
+                             {"decl": "void Other(int a)"}]}
+    copts = [("C_API_case", "lower"), ("C_API_case", "upper"), ("C_header_filename_class_template", "cw{file_scope}.{C_header_filename_suffix}"),
+             ("C_impl_filename_class_template", "cw{file_scope}.{C_impl_filename_suffix}"), ("F_API_case", "lower")]
+    copts = [(k, v) for (k, v) in copts if k != "F_API_case"]
+
+    def r1c(kv):
+        k, v = kv
+        A = copy.deepcopy(CLIB)
+        A["declarations"][0]["options"] = {k: v}
+        B = copy.deepcopy(CLIB)
+        B["declarations"][0] = {"block": True, "options": {k: v}, "declarations": [B["declarations"][0]]}
+        tag = "r1c_%s_%s" % (k, re.sub(r"\W+", "", str(v))[:12])
+        ra = run_lib(ctx, A, tag + "_A")
+        rb = run_lib(ctx, B, tag + "_B")
+        if ra[0] != 0 or rb[0] != 0:
+            return {"relation": "class-options==block-around-class", "key": k, "value": v, "what": "run failed",
+                    "output": (ra[1] if ra[0] else rb[1])[-600:], "yaml_A": open(ra[3]).read(), "yaml_B": open(rb[3]).read()}
+        bad = diff_files(ra[2], rb[2])
+        if bad:
+            return {"relation": "class-options==block-around-class", "key": k, "value": v, "what": "outputs differ", "files": bad,
+                    "yaml_A": open(ra[3]).read(), "yaml_B": open(rb[3]).read()}
+        return None
+    with ThreadPoolExecutor(vlib.NCPU) as ex:
+        for kv, res in zip(copts, ex.map(r1c, copts)):
+            ctx.count(1, ("r1c", str(kv)))
+            ctx.hist("rel:class-options==block-around-class")
             if res:
                 fails.append(res)
     ctx.sample({"relation": "container==each-child", "container_path": todo[0][0], "setting": todo[0][1]})
